@@ -54,6 +54,8 @@ pub struct Item {
     pub kind: ItemKind,
     /// derive paths as written, whitespace-free, in emitted order (per derive attribute)
     pub derive_lists: Vec<Vec<String>>,
+    /// the same with the token spacing of `quote!(#path).to_string()` (the sort key the generator uses)
+    pub derive_lists_raw: Vec<Vec<String>>,
     /// every other non-doc outer attribute, whitespace-normalised token string, in order
     pub attrs: Vec<String>,
     pub docs: Vec<String>,
@@ -100,6 +102,7 @@ fn doc_of(attr: &syn::Attribute) -> Option<String> {
 struct AttrInfo {
     docs: Vec<String>,
     derive_lists: Vec<Vec<String>>,
+    derive_lists_raw: Vec<Vec<String>>,
     others: Vec<String>,
     compact: bool,
     skip: bool,
@@ -108,7 +111,7 @@ struct AttrInfo {
 
 fn read_attrs(attrs: &[syn::Attribute]) -> AttrInfo {
     let mut out =
-        AttrInfo { docs: vec![], derive_lists: vec![], others: vec![], compact: false, skip: false, index: None };
+        AttrInfo { docs: vec![], derive_lists: vec![], derive_lists_raw: vec![], others: vec![], compact: false, skip: false, index: None };
     for a in attrs {
         if let Some(d) = doc_of(a) {
             out.docs.push(d);
@@ -116,16 +119,19 @@ fn read_attrs(attrs: &[syn::Attribute]) -> AttrInfo {
         }
         if a.path().is_ident("derive") {
             let mut list = Vec::new();
+            let mut raw = Vec::new();
             if let Ok(paths) =
                 a.parse_args_with(syn::punctuated::Punctuated::<syn::Path, syn::Token![,]>::parse_terminated)
             {
                 for p in paths {
                     list.push(nows(&ts(&p)));
+                    raw.push(ts(&p));
                 }
             } else {
                 list.push(format!("<unparsed:{}>", ts(a)));
             }
             out.derive_lists.push(list);
+            out.derive_lists_raw.push(raw);
             continue;
         }
         if a.path().is_ident("codec") {
@@ -262,6 +268,7 @@ impl CModel {
                         generics: generics_of(&s.generics, &mut self.problems, &at),
                         kind: ItemKind::Struct(read_fields(&s.fields)),
                         derive_lists: ai.derive_lists,
+                        derive_lists_raw: ai.derive_lists_raw,
                         attrs: ai.others,
                         docs: ai.docs,
                         tokens: ts(s),
@@ -309,6 +316,7 @@ impl CModel {
                         generics: generics_of(&e.generics, &mut self.problems, &at),
                         kind: ItemKind::Enum(variants),
                         derive_lists: ai.derive_lists,
+                        derive_lists_raw: ai.derive_lists_raw,
                         attrs: ai.others,
                         docs: ai.docs,
                         tokens: ts(e),
